@@ -61,6 +61,19 @@ def inventory(rep, E, ix):
                         mutated = class_attr_mutated(ix, cq, attr)
                         rep.check(not mutated, R, "%s.%s" % (cq, attr), "class-level mutable attribute %s.%s is never mutated through instances (it would be shared by all instances in the process)" % (cq, attr),
                                   "mutated at %s" % mutated, key="%s.%s" % (cq, attr))
+    # class-level / module-level constant tables with nested mutable content may only be deep-copied
+    for cq, c in ix.classes.items():
+        for n_ in c.body:
+            if isinstance(n_, ast.Assign) and is_mutable_display(n_.value) and any(is_mutable_display(x) for x in ast.walk(n_.value) if x is not n_.value):
+                for t in n_.targets:
+                    if isinstance(t, ast.Name):
+                        attr = t.id
+                        for q, f in ix.funcs.items():
+                            for ref in ast.walk(f.node):
+                                if isinstance(ref, ast.Attribute) and ref.attr == attr and u(ref.value) in ("self", "cls", cq.split(".")[-1], "type(self)"):
+                                    deep = any(isinstance(p_, ast.Call) and u(p_.func) in ("copy.deepcopy", "deepcopy") and p_.args and p_.args[0] is ref for p_ in ast.walk(f.node))
+                                    rep.check(deep, R, ix.site(f, ref), "class-level table %s.%s (which nests mutable objects) is only ever deep-copied" % (cq, attr),
+                                              "`%s` is used without copy.deepcopy: the nested objects are shared by every instance in the process" % u(ref), key="%s.%s|%s" % (cq, attr, q))
     # mutable default arguments
     n = 0
     for q, f in ix.funcs.items():
@@ -142,6 +155,16 @@ def c12_2(rep, ix, G, tables, gen_handlers):
             rep.ok(R, site, text, why)
         else:
             rep.bad(R, site, text, "table may still hold data of an earlier load: " + why, key="%s|%s" % (h, t))
+    # include isolation: after the nested walk of an included file the tables must not carry its entries into the including program
+    seenf = set()
+    for (h, t, path, ok, why) in ts.foreign_checks:
+        if (h, t) in seenf:
+            continue
+        seenf.add((h, t))
+        rep.bad(R, "event %s (after the nested walk of an include)" % h, "when %s fires, table %s holds no entries of an included file" % (h, t),
+                "the included file's walk may end with the table filled, and nothing clears it before: " + why, key="foreign|%s|%s" % (h, t))
+    rep.check(not ts.walk.ends_used, R, "walk of `start`", "a complete walk ends with every table cleared after its last use (nothing of this file remains for an including file)",
+              "may end with %s still filled" % sorted(ts.walk.ends_used), key="walk ends clean")
     for q in ENTRY:
         f = ix.func(q)
         s = ts.summ[q]
